@@ -471,7 +471,7 @@ func init() {
 			"per level a command line derived from that level's spec (1/3 mutated) that never spells an alias of that level. Oracle: if every level's own tokens are accepted by that level's spec exactly the hooks of the path and the " +
 			"addressed Action run (once, in nesting order), each level's variables hold a derivation of its own tokens and every other command's variables are untouched; otherwise nothing runs and a non-nil error is returned. " +
 			"Trees also contain command groups that declare nothing (with stray tokens), option-only levels, hidden commands, commands named like their parent, dash-leading names, near misses of names (case, prefix, blanks) as data, sub-commands declaring -h/--help; what each ancestor's variables held when a sub-command's initializer ran must equal what the Action sees. " +
-			"One case in ten declares a command after a first Run (late), one in ten runs a bare tree on three paths in a row on the same application object (twice). " +
+			"On accepted invocations the commands that are only passed through have, one time in three, no Action at all (pure dispatchers). One case in ten declares a command after a first Run (late), one in ten runs a bare tree on three paths in a row on the same application object (twice). " +
 			"non-trivial = path of >=2 levels or a rejected invocation; distinct by (tree, argv).",
 		Assumptions: []string{"routing model of DESIGN.md 3.5; unclaimed zones of C01 per level skipped; no help/version tokens (C14)"},
 		Cases:       tiered(20000, 800000),
@@ -590,6 +590,17 @@ func runC04(c *core.Ctx) {
 	if e.kind == "VERSION" {
 		c.Inc("skipped_version_request") // C14
 		return
+	}
+	if e.kind == "RUN" {
+		// commands that are only passed through may have no Action at all (pure dispatchers): their own tokens are
+		// validated and bound, and their hooks run, exactly as with one
+		for _, t := range e.path[:len(e.path)-1] {
+			if c.R.Intn(3) == 0 {
+				t.Action = drive.Beh{Kind: drive.BehAbsent}
+				d.Note += " no-action:" + t.Path()
+				c.Inc("dispatch_only_levels")
+			}
+		}
 	}
 	c.Journal(d)
 	o := drive.Run(&drive.App{Root: root, Policy: flag.ContinueOnError, Version: version}, argv)
